@@ -115,9 +115,13 @@ PWExpr(pw) == PWExprFrom(pw, 1)
 
 RECURSIVE Inline(_, _, _)
 Inline(e, ft, mode) ==
-    IF e.k = "call" /\ e.name \in DOMAIN ft /\ ft[e.name].k = "fn" /\ Len(e.args) = Len(ft[e.name].params)
+    IF e.k = "call" /\ e.name \in DOMAIN ft /\ ft[e.name].k = "fn" /\ BindOk(ft[e.name], e)
     THEN LET f == ft[e.name]
-             args == [j \in DOMAIN e.args |-> Inline(e.args[j], ft, mode)]
+             given == [j \in DOMAIN e.args |-> Inline(e.args[j], ft, mode)]
+             \* one argument expression per parameter: bound positionally, by NAME, or the default value
+             args == [m \in DOMAIN f.params |->
+                         LET j == ArgFor(f, e, m)
+                         IN IF j = 0 THEN Lit(DefsOf(f)[m - FirstDef(f) + 1]) ELSE given[j]]
              pw == ToPW(f.params, f.body, mode)
              inner == Inline(PWExpr(pw), ft, mode)
          IN IF mode.sim
